@@ -29,6 +29,7 @@ def run(ctx, db, tier):
     state_recorded(ctx, db)
     postfix_snapshots(ctx, db)
     done_means_returned(ctx, db)
+    symmetric_hand_over(ctx, db)
     from . import C01
     C01.has_value_agrees(ctx, db, 'C13.has-value-agrees')
     atomic.check_roles(ctx, db, 'C13.block-flag-orders', only_objects={P + '::_block'}, floor=3)
@@ -535,3 +536,57 @@ def done_means_returned(ctx, db, rid_='C13.done-means-returned'):
             ctx.ob(rid, f, e['loc'], ok, 'the returned-normally flag is set by return_void only', desc='%s sets the returned-normally flag: a generator that did not return (it threw) is reported as finished and its exception is never delivered' % fname)
     if n == 0:
         raise Broken('generator promise: no writer of _done found')
+
+
+RESUME_NOW = ('std::coroutine_handle::resume', 'std::coroutine_handle::operator()')
+
+
+def symmetric_hand_over(ctx, db, rid_='C13.symmetric-hand-over'):
+    """consumer and generator body hand control to each other once per item; an unbounded sequence is read on a bounded stack only when
+    each hand-over replaces the running frame (await_suspend answers with the handle of the other side) instead of nesting in it"""
+    rid = ctx.rule(rid_, 'PATHS+TYPE', 'every await_suspend of the generator (next_awt: consumer -> body, yield_suspend: body -> consumer) hands control over by symmetric transfer on '
+                   'every path: it answers with a coroutine handle - next_awt with the handle obtained from next_async, yield_suspend with the handle popped from the suspend point '
+                   'of the asker it resumed - and resumes no coroutine by a nested call (helpers included): the stack does not grow with the number of items read by co_await', floor=2)
+    T = htracer(db)
+    seen = set(); n = 0
+    for f in db.all_instances():
+        nn = f['nname']
+        if not nn.startswith('cocls::generator::') or nn.split('::')[-1] != 'await_suspend' or f.get('lambda'):
+            continue
+        ci = f.get('class_inst') or ''
+        if 'subscriber' in ci or 'publisher' in ci or f['key'] in seen:
+            continue
+        seen.add(f['key']); n += 1
+        consumer_side = not nn.startswith(P + '::')
+        trs = [t for t in T.traces(f) if live(t)]
+        if T.truncated:
+            raise Broken('path bound exceeded in ' + nn)
+        ctx.paths(rid, len(trs))
+        bad = None
+        if 'coroutine_handle' not in (f.get('ret') or ''):
+            bad = ('await_suspend answers %s, not a coroutine handle: the other side cannot be entered by symmetric transfer, it has to be resumed from inside await_suspend '
+                   '(one more stack frame per item)' % (f.get('ret') or 'nothing'), trs[0] if trs else [])
+        for tr in trs:
+            nested = [c for c in calls(tr) if norm(c.get('callee') or '') in RESUME_NOW and not c.get('expanded')]
+            if nested:
+                bad = bad or ('await_suspend resumes a coroutine by a nested call (%s on %s): consumer and body then call into each other once per item and the stack grows with the '
+                              'length of the sequence' % (norm(nested[0]['callee']).split('::')[-1], nested[0].get('recv')), tr)
+                continue
+            rp = ret_expr(tr)
+            if not rp:
+                continue      # (answered by the return-type clause)
+            org, at = origin_in_trace(tr, len(tr), rp)
+            org = norm(org or '')
+            if consumer_side:
+                if org != 'call(%s::next_async)' % P:
+                    bad = bad or ('the handle answered with (%s) is not the one next_async returned: the generator body is not entered by this transfer' % org, tr)
+            else:
+                pops = [i for i, it in enumerate(tr) if it.k == 'call' and norm(it.get('callee') or '') == 'cocls::suspend_point::pop' and
+                        norm(origin_in_trace(tr, i, it.get('recv'))[0] or '') == 'call(cocls::awaiter::resume)']
+                if org != 'call(cocls::suspend_point::pop)' or len(pops) != 1:
+                    bad = bad or ('the handle answered with (%s) is not the one popped from the suspend point of the resumed asker: the consumer is then resumed when that suspend '
+                                  'point is flushed inside await_suspend, not by transfer' % org, tr)
+        ctx.ob(rid, f, f['key'], bad is None and bool(trs), '%s transfers control symmetrically' % nn.split('::', 2)[-1] + ('' if not bad else ' -- ' + bad[0]), desc=bad[0] if bad else None,
+               trace=fmt_trace(bad[1]) if bad and bad[1] else None)
+    if n < 2:
+        raise Broken('generator: the await_suspend functions of next_awt and yield_suspend were not found')
